@@ -52,7 +52,7 @@ CHECKS = {
          "exhaustive crash-point enumeration: every durable step of each scenario is a kill point (child process aborted by hook), judged by reopen + validate + reference unspent set + re-delivery vs uninterrupted twin",
          "c09",
          "For each scenario (plain extension, fork block, reorg with spends, header-by-header and header-batch reorg, compaction; thorough adds compaction+block, first start, reorg after compaction) every crash point the interrupted operation executes (74/4/74/22/18/42 in quick, 567 in thorough) is exercised: a child process is killed at it, a second process reopens the directory and checks Chain::init, allowed head, validate(false), the unspent set against the reference replay, and equality with an uninterrupted twin after re-delivery. Genuine defects found on the unchanged tree are listed per (scenario, crash label, failure kind) in known_findings.json; any other failing crash point is a VIOLATION.",
-         "Kill = process death (page cache survives). Crash points are the hook call sites (MANIFEST.hooks). Quick: 8 scenarios incl. coinbase-only and spending extensions under version-5 headers (382 crash points). Thorough: 15 scenarios (adds compaction+block, first start, reorg after compaction, restart of a consistent / compacted node, orphan cascade, bodies of a fork whose headers are known) and, for every crash point the node recovers from, a SECOND kill at every crash point of the restart (35 429 histories). About 1 070 known findings share four root causes (DESIGN 9.4); a change that fails at a crash history already listed with the same failure kind is masked.",
+         "Kill = process death (page cache survives). Crash points are the hook call sites (MANIFEST.hooks). Quick: 10 scenarios incl. extension (coinbase-only / spending), fork block and reorganisation under version-5 headers (460 crash points). Thorough: 17 scenarios (adds compaction+block, first start, reorg after compaction, restart of a consistent / compacted node, orphan cascade, bodies of a fork whose headers are known) and, for every crash point the node recovers from, a SECOND kill at every crash point of the restart (67 529 histories, about 25 min). About 1 900 known findings remain after four repairs (DESIGN 9.4): 1 701 of them are second-kill histories of one scenario under pre-version-3 headers; a change that fails at a crash history already listed with the same failure kind is masked.",
          "DESIGN.md §4 C09"),
  "C10": ("exploration",
          "bounded-exhaustive enumeration: value catalogue x protocol versions (round trip, byte identity, hash invariance vs a reference layout) and every canonical-form mutation operator at every site of a reference structure map (every tag byte x 256 values)",
